@@ -3,7 +3,8 @@
    [wfP p]: extended coordinates with Z <> 0, X*Y = Z*T, on the curve.  [aff p] = (X/Z, Y/Z). *)
 Require Import ZArith List Bool.
 From D377 Require Import Base.Certs Base.ZpField Base.FieldSec Base.Fields Model.Decaf Model.Concrete Model.OpTable.
-From D377 Require Import Spec.Edwards Proofs.Instance Proofs.Final Proofs.Reach Proofs.Projective Proofs.EdwardsLaw.
+From D377 Require Import Spec.Edwards Proofs.Instance Proofs.Final Proofs.Reach Proofs.Projective Proofs.EdwardsLaw Tie.Dep.
+From D377 Require Generated.Dep.
 Local Existing Instance FqF.
 
 Definition E_add := ed_add fq_a ark_D.
@@ -27,6 +28,20 @@ Theorem C04_of_affine : forall q, onC q -> wfP (of_affine q) /\ aff (of_affine q
 Proof. exact (@of_affine_correct FqF ark_D). Qed.
 Theorem C04_to_affine : forall p, wfP p -> to_affine p = aff p /\ onC (to_affine p).
 Proof. exact (@to_affine_correct FqF ark_D). Qed.
+(* --- the formulas above ARE the code of the dependency: ark-ec's Projective/Affine arithmetic as translated from the sources of
+   the version pinned by Cargo.lock (Generated/Dep.v, regenerated on every run), with the crate's own `mul_by_a` and COEFF_D --- *)
+Definition dep_mul_by_a := @Generated.Dep.cfg_mul_by_a FqF.
+Theorem C04_dependency_add : forall p q, Generated.Dep.dep_add ark_D mkpt dep_mul_by_a p q = ark_add ark_D p q.
+Proof. exact (@tie_dep_add FqF ark_D). Qed.
+Theorem C04_dependency_mixed_add : forall p q, Generated.Dep.dep_madd ark_D mkpt dep_mul_by_a p q = ark_madd ark_D p q.
+Proof. exact (@tie_dep_madd FqF ark_D). Qed.
+Theorem C04_dependency_double : forall p, Generated.Dep.dep_double mkpt dep_mul_by_a p = ark_double p.
+Proof. exact (@tie_dep_double FqF). Qed.
+Theorem C04_dependency_neg : forall p, Generated.Dep.dep_neg mkpt p = pneg p.
+Proof. exact (@tie_dep_neg FqF). Qed.
+Theorem C04_dependency_conversions : forall p q,
+  Generated.Dep.dep_from_affine mkpt q = of_affine q /\ Generated.Dep.dep_to_affine p = to_affine p /\ Generated.Dep.dep_is_zero p = ark_is_zero p.
+Proof. intros p q. repeat split. Qed.
 (* --- formulas of the minimal build, on the definitions regenerated from the source --- *)
 Theorem C04_min_add : forall p q, wfP p -> wfP q -> wfP (gen_min_add p q) /\ aff (gen_min_add p q) = E_add (aff p) (aff q).
 Proof. intros p q. rewrite gen_min_add_eq. exact (@min_add_correct FqF ark_D d_ns m1_sq add11_nz min_K p q min_K_is_2D). Qed.
